@@ -143,24 +143,30 @@ theorem C07_new_repaired (P : Params) (cfg : Cfg) (es : List Ev) (hm : Mono es n
   rw [New.run_eq]
   refine runWith_spec P cfg (New.Good Flags.repaired P cfg) _ (New.stepOK _ P cfg ?_) es GState.init [] none
     (allOcc_of_mem _ es ?_) hm (inv_init cfg)
-  · intro h; simp [Flags.repaired] at h
+  · intro h; simp [Flags.repaired, Flags.current] at h
   · intro o _
-    exact ⟨by intro h; simp [Flags.repaired] at h, by intro h; simp [Flags.repaired] at h,
-      by intro h; simp [Flags.repaired] at h⟩
+    exact ⟨by intro h; simp [Flags.repaired, Flags.current] at h, by intro h; simp [Flags.repaired, Flags.current] at h,
+      by intro h; simp [Flags.repaired, Flags.current] at h⟩
 
-/-- **The new subsystem as it is** (after the fixes e0254f9, 07af69d, 4801d95) gates correctly for every specification
-list, every `@state_active` value and every history – on all configurations in which the one remaining deviation, the
-early hold-off stamp (C07-F2), cannot show: `@state_active` listed above `@time_active`, or absent, or no positive
+/-- **The new subsystem as it is** (after the fixes e0254f9, 07af69d, 4801d95 and the fix of C07-F2: `last_trig_time` is stamped
+by `dispatch_accepted` once every handler has passed) gates correctly for every configuration – whatever the order of the guard
+decorators –, every specification list, every `@state_active` value and every history. -/
+theorem C07_new (P : Params) (cfg : Cfg) (es : List Ev) (hm : Mono es none) :
+    New.run Flags.current P cfg es GState.init = Spec.runs P cfg es [] :=
+  C07_new_repaired P cfg es hm
+
+/-- **The new subsystem before the fix of C07-F2** (`last_trig_time` stamped inside the time handler) gated correctly only on the
+configurations in which the early stamp cannot show: `@state_active` listed above `@time_active`, or absent, or no positive
 `hold_off`. -/
 theorem C07_new_partial (P : Params) (cfg : Cfg) (es : List Ev) (hm : Mono es none)
     (hord : cfg.saFirst = true ∨ cfg.stateActive = false ∨ Spec.holdN cfg = 0) :
-    New.run Flags.current P cfg es GState.init = Spec.runs P cfg es [] := by
+    New.run Flags.preFixStamp P cfg es GState.init = Spec.runs P cfg es [] := by
   rw [New.run_eq]
-  refine runWith_spec P cfg (New.Good Flags.current P cfg) _ (New.stepOK _ P cfg (fun _ => hord)) es GState.init [] none
+  refine runWith_spec P cfg (New.Good Flags.preFixStamp P cfg) _ (New.stepOK _ P cfg (fun _ => hord)) es GState.init [] none
     (allOcc_of_mem _ es ?_) hm (inv_init cfg)
   intro o _
-  exact ⟨by intro h; simp [Flags.current] at h, by intro h; simp [Flags.current] at h,
-    by intro h; simp [Flags.current] at h⟩
+  exact ⟨by intro h; simp [Flags.preFixStamp] at h, by intro h; simp [Flags.preFixStamp] at h,
+    by intro h; simp [Flags.preFixStamp] at h⟩
 
 /-- 2024-06-03 12:00:00 (a Monday) -/
 def wNoon : Int := 1717416000000000
@@ -199,12 +205,14 @@ theorem C07_new_regress_falsy_state_active :
     Legacy.run Flags.current Params.trivial cfg [wOcc 1 1000 .falsy] GState.init = [false] := by
   decide
 
-/-- finding C07-F2 (open): `@time_active(hold_off=10)` above `@state_active`: an occurrence rejected by `@state_active` at 1 s
-stamps `last_trig_time`; the first acceptable occurrence at 6 s is suppressed although nothing was accepted before. -/
-theorem C07_new_cex_early_stamp :
+/-- regression for C07-F2 (fixed): `@time_active(hold_off=10)` above `@state_active`: before the fix an occurrence rejected by
+`@state_active` at 1 s stamped `last_trig_time` and the first acceptable occurrence at 6 s was suppressed although nothing had
+been accepted before; the code as it is runs the function at 6 s and 17 s, like the legacy subsystem and the specification. -/
+theorem C07_new_regress_early_stamp :
     let cfg : Cfg := ⟨true, true, [], some 10000, false, wNoon⟩
     let es := [wOcc 1 1000 .isFalse, wOcc 2 6000 .truthy, wOcc 3 11000 .truthy, wOcc 4 17000 .truthy]
-    New.run Flags.current Params.trivial cfg es GState.init = [false, false, true, false] ∧
+    New.run Flags.preFixStamp Params.trivial cfg es GState.init = [false, false, true, false] ∧
+    New.run Flags.current Params.trivial cfg es GState.init = [false, true, false, true] ∧
     Spec.runs Params.trivial cfg es [] = [false, true, false, true] ∧
     Legacy.run Flags.current Params.trivial cfg es GState.init = [false, true, false, true] := by
   decide
@@ -272,7 +280,7 @@ theorem C07_direct_new (F : Flags) (P : Params) (cfg : Cfg) (es : List Ev) (g : 
 /-- **One guard decorator of each kind per function** (legacy; documented: "only a single `@state_active` / `@time_active`
 decorator can be used per function"): with two of a kind `trigger_init` refuses the function – no trigger occurrence ever starts
 it, direct calls still run; with at most one of each, `runFn` is the guarded trigger loop the other theorems talk about.  (The new
-subsystem has no such check: finding C07-F6.) -/
+subsystem: `C07_new_repeated_guard_refused`.) -/
 theorem C07_legacy_repeated_guard_refused (F : Flags) (P : Params) (cfg : Cfg) (nSA nTA : Nat) (es : List (Nat × Ev)) :
     ((1 < nSA ∨ 1 < nTA) → (Legacy.runFn F P cfg nSA nTA es).length = es.length ∧
         ∀ i : Nat, (Legacy.runFn F P cfg nSA nTA es)[i]? = some true ↔ (es[i]?).map (·.2) = some Ev.direct) ∧
@@ -293,6 +301,37 @@ theorem C07_legacy_repeated_guard_refused (F : Flags) (P : Params) (cfg : Cfg) (
     have hc : ¬ ((decide (nSA > 1) || decide (nTA > 1)) = true) := by
       simp; omega
     rw [if_neg hc]
+
+/-- **…and in the new subsystem** (since the fix of C07-F6, `TriggerHandlerDecorator.validate`): with two `@state_active` or two
+`@time_active` the function is refused – no occurrence ever starts it, direct calls still run; with at most one of each, `runFn` is
+the guarded dispatch the other theorems talk about. -/
+theorem C07_new_repeated_guard_refused (F : Flags) (P : Params) (cfg : Cfg) (nSA nTA : Nat) (es : List Ev) :
+    ((1 < nSA ∨ 1 < nTA) → (New.runFn false F P cfg nSA nTA es).length = es.length ∧
+        ∀ i : Nat, (New.runFn false F P cfg nSA nTA es)[i]? = some true ↔ es[i]? = some Ev.direct) ∧
+    (nSA ≤ 1 → nTA ≤ 1 → New.runFn false F P cfg nSA nTA es = New.run F P cfg es GState.init) := by
+  refine ⟨fun h => ?_, fun h1 h2 => ?_⟩
+  · have hc : (!false && (decide (nSA > 1) || decide (nTA > 1))) = true := by
+      rcases h with h | h <;> simp [h]
+    unfold New.runFn
+    rw [if_pos hc]
+    refine ⟨List.length_map _, fun i => ?_⟩
+    rw [List.getElem?_map]
+    cases hi : es[i]? with
+    | none => simp
+    | some e => cases e <;> simp
+  · unfold New.runFn
+    have hc : ¬ ((!false && (decide (nSA > 1) || decide (nTA > 1))) = true) := by
+      simp; omega
+    rw [if_neg hc]
+
+/-- regression for C07-F6 (fixed): before the fix the new subsystem installed both `@state_active` handlers and ran the function
+whenever both were truthy; now the function is refused as under the legacy subsystem. -/
+theorem C07_new_regress_repeated_guard :
+    let cfg : Cfg := ⟨true, false, [], none, true, wNoon⟩
+    New.runFn true Flags.current Params.trivial cfg 2 1 [wOcc 1 1000 .truthy, .direct] = [true, true] ∧
+    New.runFn false Flags.current Params.trivial cfg 2 1 [wOcc 1 1000 .truthy, .direct] = [false, true] ∧
+    Legacy.runFn Flags.current Params.trivial cfg 2 1 [(0, wOcc 1 1000 .truthy), (0, .direct)] = [false, true] := by
+  decide
 
 /-! ## non-vacuity of the hypotheses -/
 
